@@ -5,8 +5,14 @@ package lsp
 // Contracts for the govc verification-condition generator (see /verif/DESIGN.md, section 1.2).
 // This file is comment-only: it contains no declarations and changes no compiled code.
 
-// sumLines(h, p, k): byte length of the first k lines stored at p in string memory h, each followed by a newline.
-//@ specrec sumLines(h (Array Int Str), p Int, k Int) Int = (ite (<= k 0) 0 (+ (sf_sumLines h p (- k 1)) (slen (select h (+ p (- k 1)))) 1))
+// sumlen1(lines, k): byte length of the first k lines, each followed by a newline (built-in recursive spec function).
+
+// The document mirror: the cached lines are exactly the content split at newlines, i.e. the line lengths plus one
+// separator each add up to the content length plus one.
+//@ pred docOK(d *Document) = len(d.Lines) >= 1 && sumlen1(d.Lines) == len(d.Content) + 1
+
+//@ func splitLines
+//@   ensures len(result) >= 1 && sumlen1(result) == len(content) + 1
 
 //@ func clampOffset
 //@   requires n >= 0
@@ -22,11 +28,18 @@ package lsp
 //@ func positionToOffset
 //@   ensures 0 <= result
 //@   ensures implies(pos.Line < 0, result == 0)
-//@   ensures implies(0 <= pos.Line && pos.Line < len(lines), sumLines(mem(lines), ptr(lines), pos.Line) <= result && result <= sumLines(mem(lines), ptr(lines), pos.Line) + len(lines[pos.Line]))
-//@   ensures implies(pos.Line >= len(lines), result == max0(sumLines(mem(lines), ptr(lines), len(lines)) - 1))
-//@   loop 1 invariant 0 <= i && i <= len(lines) && i <= pos.Line && 0 <= offset && offset == sumLines(mem(lines), ptr(lines), i)
+//@   ensures implies(0 <= pos.Line && pos.Line < len(lines), sumlen1(lines, pos.Line) <= result && result <= sumlen1(lines, pos.Line) + len(lines[pos.Line]))
+//@   ensures implies(pos.Line >= len(lines), result == max0(sumlen1(lines) - 1))
+//@   loop 1 invariant 0 <= i && i <= len(lines) && i <= pos.Line && 0 <= offset && offset == sumlen1(lines, i)
 //@   loop 1 decreases len(lines) - i
 
 //@ func (*Document).GetWordAtPosition
 //@   loop 1 invariant 0 <= start && start <= pos.Character
 //@   loop 2 invariant pos.Character <= end && end <= len(runes) && 0 <= start && start <= end
+
+// Every change, full or incremental, leaves the cached lines in step with the content.
+//@ func (*DocumentManager).Update
+//@   loop 1 invariant implies(doc != nil, docOK(doc))
+
+//@ func applyChange
+//@   requires len(lines) >= 1 && sumlen1(lines) == len(content) + 1
